@@ -175,11 +175,16 @@ pub fn j_tai(t: i128, leap: &LeapTable, out: &mut Local) {
                     }
                 }
                 None => {
-                    // inside an inserted interval: no UTC count denotes this instant; the statement only says
-                    // "never goes backwards": accept anything within the inserted amount of the entry's UTC timestamp
+                    // inside an inserted interval [ts + prev, ts + new) no UTC count denotes this instant; the statement
+                    // says "TAI to UTC never goes backwards": the instant just before the interval maps to ts - 1 ns
+                    // and the instant at its end to ts, so the only answers that do not go backwards are ts - 1 ns
+                    // and ts (the UTC clock holds during the inserted seconds)
                     let (ts, ins) = leap.inserted_interval(t).unwrap();
-                    if (g - ts).abs() <= ins {
-                        out.dc(2);
+                    if g == ts - 1 || g == ts {
+                        out.ok(2, true, 200 + (ts - g) as u64);
+                    } else if (g - ts).abs() <= ins {
+                        let conv = if leap.tai_to_utc(t - ins) == Some(g) { "repeats-the-utc-time-of-the-preceding-seconds" } else { "other-value" };
+                        out.viol("c06.tai_to_utc", format!("goes-backwards-inside-inserted-interval,{conv},{}", if ins > NS { "1972-01-01" } else { "leap-second" }), args, format!("{} or {} (holding)", ts - 1, ts), describe(g));
                     } else {
                         out.viol("c06.tai_to_utc", format!("inserted-interval-gross,diff={}", diffclass(g, ts)), args, format!("within {ins} ns of {ts}"), describe(g));
                     }
@@ -409,9 +414,15 @@ impl crate::engine::SeqSpec for Seq {
                 // inside an inserted interval: value don't-care, bounded by the inserted amount; continue from the
                 // implementation's own answer (any UTC count is a valid state)
                 let (ts, ins) = self.leap.inserted_interval(tai).unwrap();
-                if (alpha(x.duration) - ts).abs() <= ins {
-                    out.dc(1);
-                    Some((a as u8, alpha(x.duration)))
+                let g = alpha(x.duration);
+                if g == ts - 1 || g == ts {
+                    out.ok(1, true, 900 + (ts - g) as u64);
+                    Some((a as u8, g))
+                } else if (g - ts).abs() <= ins {
+                    let conv = if self.leap.tai_to_utc(tai - ins) == Some(g) { "repeats-the-utc-time-of-the-preceding-seconds" } else { "other-value" };
+                    out.viol("c06.seq", format!("goes-backwards-inside-inserted-interval,{conv},{}", if ins > NS { "1972-01-01" } else { "leap-second" }), args, format!("{} or {} (holding)", ts - 1, ts), enc(g));
+                    // continue from the implementation's own answer (any UTC count is a valid state)
+                    Some((a as u8, g))
                 } else {
                     out.viol("c06.seq", "inserted-interval-gross".into(), args, format!("within {ins} of {ts}"), enc(alpha(x.duration)));
                     None
